@@ -1,0 +1,244 @@
+//go:build verif
+
+package search
+
+// Verification hooks for property C07 (/verif): access to the unexported treeList, its node
+// structure (shape, balance factors, parent pointers) and the iterator's internal state.
+// Nothing here changes behaviour; the file is only compiled with -tags verif.
+
+import (
+	"fmt"
+	"io"
+	"log"
+	"strings"
+)
+
+// VerifVal is the value type used by the C07 harness: key K, payload G.
+type VerifVal struct{ K, G int }
+
+type verifValues struct{}
+
+func (verifValues) Compare(a Value, b Value) Comparison {
+	ka, kb := a.(VerifVal).K, b.(VerifVal).K
+	if ka < kb {
+		return ComparisonLess
+	} else if ka > kb {
+		return ComparisonGreater
+	}
+	return ComparisonEqual
+}
+
+func (verifValues) CompareKey(v Value, k Key) Comparison {
+	ka, kb := v.(VerifVal).K, k.(int)
+	if ka < kb {
+		return ComparisonLess
+	} else if ka > kb {
+		return ComparisonGreater
+	}
+	return ComparisonEqual
+}
+
+func (verifValues) Key(v Value) Key { return v.(VerifVal).K }
+
+// VerifValues returns the Values implementation for VerifVal (keys are ints).
+func VerifValues() Values { return verifValues{} }
+
+// VerifTree wraps a treeList of VerifVal.
+type VerifTree struct{ t *treeList }
+
+func NewVerifTree() *VerifTree { return &VerifTree{t: newTreeList(verifValues{})} }
+
+func (v *VerifTree) Insert(k, g int) { v.t.Insert(VerifVal{K: k, G: g}) }
+
+// Delete goes through treeList.Delete (and therefore DeleteKey).
+func (v *VerifTree) Delete(k int) { v.t.Delete(VerifVal{K: k}) }
+
+func (v *VerifTree) Len() int { return v.t.Len() }
+
+func (v *VerifTree) Lookup(k int) (int, bool) {
+	if x, ok := v.t.Lookup(k); ok {
+		return x.(VerifVal).G, true
+	}
+	return 0, false
+}
+
+// Empty reports whether the root pointer is nil.
+func (v *VerifTree) Empty() bool { return v.t.root == nil }
+
+// NodeKind classifies the node holding key k before a deletion: absent, leaf, left (only a left
+// child), right, two.
+func (v *VerifTree) NodeKind(k int) string {
+	n := v.t.root
+	for n != nil {
+		switch c := n.v.(VerifVal).K; {
+		case c == k:
+			switch {
+			case n.left != nil && n.right != nil:
+				return "two"
+			case n.left != nil:
+				return "left"
+			case n.right != nil:
+				return "right"
+			}
+			return "leaf"
+		case c < k:
+			n = n.right
+		default:
+			n = n.left
+		}
+	}
+	return "absent"
+}
+
+// Validate runs treeList.Validate with its log output discarded.
+func (v *VerifTree) Validate() bool { return verifValidate(v.t) }
+
+func verifValidate(t *treeList) bool {
+	w := log.Writer()
+	log.SetOutput(io.Discard)
+	defer log.SetOutput(w)
+	return t.Validate()
+}
+
+// Dump renders the tree in preorder, "k:g:bal" per node and "." per nil link, and reports whether
+// every parent pointer is the node's real parent. The walk is bounded so that a corrupted
+// (cyclic) structure still terminates; truncated is true in that case.
+func (v *VerifTree) Dump() (dump string, parentsOK bool, truncated bool) {
+	return verifDump(v.t, func(x Value) string {
+		vv := x.(VerifVal)
+		return fmt.Sprintf("%d:%d", vv.K, vv.G)
+	})
+}
+
+func verifDump(t *treeList, render func(Value) string) (string, bool, bool) {
+	var sb strings.Builder
+	budget := 100000
+	parentsOK := true
+	var walk func(n *treeNode, parent *treeNode, depth int)
+	walk = func(n *treeNode, parent *treeNode, depth int) {
+		if budget <= 0 {
+			return
+		}
+		budget--
+		if sb.Len() > 0 {
+			sb.WriteByte(' ')
+		}
+		if n == nil {
+			sb.WriteByte('.')
+			return
+		}
+		if depth > 200 {
+			budget = 0
+			return
+		}
+		if n.parent != parent {
+			parentsOK = false
+		}
+		fmt.Fprintf(&sb, "%s:%d", render(n.v), n.balance)
+		walk(n.left, n, depth+1)
+		walk(n.right, n, depth+1)
+	}
+	walk(t.root, nil, 0)
+	return "[" + sb.String() + "]", parentsOK, budget <= 0
+}
+
+// VerifIter wraps a treeListIterator.
+type VerifIter struct{ it *treeListIterator }
+
+func (v *VerifTree) Begin() *VerifIter { return &VerifIter{it: v.t.Begin()} }
+
+func (i *VerifIter) Next() bool { return i.it.Next() }
+
+func (i *VerifIter) Advance(k int) bool { return i.it.Advance(k) }
+
+// Value returns the key and payload under the iterator (ok=false when Value() is nil).
+func (i *VerifIter) Value() (k int, g int, ok bool) {
+	if x := i.it.Value(); x != nil {
+		vv := x.(VerifVal)
+		return vv.K, vv.G, true
+	}
+	return 0, 0, false
+}
+
+func (i *VerifIter) EstimateLength() int { return i.it.EstimateLength() }
+
+// State renders the iterator's fields: node (its key, or nil), whether that node is marked deleted,
+// started and done.
+func (i *VerifIter) State() string {
+	node, del := "nil", 0
+	if i.it.node != nil {
+		node = fmt.Sprintf("%d", i.it.node.v.(VerifVal).K)
+		if i.it.node.isDeleted() {
+			del = 1
+		}
+	}
+	b := func(x bool) int {
+		if x {
+			return 1
+		}
+		return 0
+	}
+	return fmt.Sprintf("node=%s del=%d started=%d done=%d", node, del, b(i.it.started), b(i.it.done))
+}
+
+// OnDeletedNode reports whether the iterator's node has been unlinked from the tree.
+func (i *VerifIter) OnDeletedNode() bool { return i.it.node != nil && i.it.node.isDeleted() }
+
+// ---- TreeIndex ----------------------------------------------------------------------------
+
+// VerifDumpIndex renders the token tree of a TreeIndex built over VerifValues: one line-free
+// string "tokens=[tok:bal ...] par=<0|1> len=<n> | tok len=<n> par=<0|1> ok=<0|1> [k:g:bal ...] | ...",
+// the per-token lists in token order.
+func VerifDumpIndex(ix *TreeIndex) string {
+	var sb strings.Builder
+	d, par, _ := verifDump(ix.lists, func(x Value) string { return x.(treeIndexEntry).token })
+	fmt.Fprintf(&sb, "tokens=%s par=%d ok=%d len=%d", d, verifB(par), verifB(verifValidate(ix.lists)), ix.lists.Len())
+	var each func(n *treeNode, depth int)
+	each = func(n *treeNode, depth int) {
+		if n == nil || depth > 200 {
+			return
+		}
+		each(n.left, depth+1)
+		e := n.v.(treeIndexEntry)
+		ld, lpar, _ := verifDump(e.list, func(x Value) string {
+			vv := x.(VerifVal)
+			return fmt.Sprintf("%d:%d", vv.K, vv.G)
+		})
+		fmt.Fprintf(&sb, " | %s len=%d par=%d ok=%d %s", e.token, e.list.Len(), verifB(lpar), verifB(verifValidate(e.list)), ld)
+		each(n.right, depth+1)
+	}
+	each(ix.lists.root, 0)
+	return sb.String()
+}
+
+func verifB(x bool) int {
+	if x {
+		return 1
+	}
+	return 0
+}
+
+// VerifIterState renders the internal state of an iterator obtained from TreeIndex.Begin over
+// VerifValues ("empty" for the empty iterator returned for an unknown token).
+func VerifIterState(it Iterator) string {
+	if e, ok := it.(*treeIndexEntryIterator); ok {
+		return (&VerifIter{it: &e.treeListIterator}).State()
+	}
+	return "empty"
+}
+
+// VerifIterListEmpty reports whether the list under an iterator obtained from TreeIndex.Begin has no root.
+func VerifIterListEmpty(it Iterator) bool {
+	if e, ok := it.(*treeIndexEntryIterator); ok {
+		return e.list.root == nil
+	}
+	return false
+}
+
+// VerifIterOnDeletedNode is OnDeletedNode for an iterator obtained from TreeIndex.Begin.
+func VerifIterOnDeletedNode(it Iterator) bool {
+	if e, ok := it.(*treeIndexEntryIterator); ok {
+		return e.node != nil && e.node.isDeleted()
+	}
+	return false
+}
